@@ -168,50 +168,70 @@ theorem runActs_rel' (R : Rpc → Rpc → Prop) (hrefl : ∀ s, R s s) (htrans :
 /-- `s'` differs from `s` at most in the server half / service table / dead flag -/
 def CFrame (s s' : Rpc) : Prop :=
   s'.n = s.n ∧ s'.idAlloc = s.idAlloc ∧ s'.nTag = s.nTag ∧ s'.pending = s.pending ∧ s'.ring = s.ring ∧
-  s'.vn = s.vn ∧ s'.timerOn = s.timerOn ∧ s'.now = s.now ∧ s'.due = s.due ∧ s'.prog = s.prog
+  s'.vn = s.vn ∧ s'.timerOn = s.timerOn ∧ s'.now = s.now ∧ s'.due = s.due ∧ s'.prog = s.prog ∧ s'.dead = s.dead
 
-theorem CFrame_refl (s : Rpc) : CFrame s s := ⟨rfl, rfl, rfl, rfl, rfl, rfl, rfl, rfl, rfl, rfl⟩
+theorem CFrame_refl (s : Rpc) : CFrame s s := ⟨rfl, rfl, rfl, rfl, rfl, rfl, rfl, rfl, rfl, rfl, rfl⟩
 
 theorem apiRespond_frame (s : Rpc) (id code : Int) : CFrame s (s.apiRespond id code).1 := by
-  unfold Rpc.apiRespond; split <;> exact CFrame_refl s
+  unfold Rpc.apiRespond; split
+  · exact CFrame_refl s
+  · split <;> exact CFrame_refl s
+
+theorem guard_cases (s : Rpc) (r : Rpc × List REv) : s.guard r = r ∨ s.guard r = (s, [.misuse]) := by
+  unfold Rpc.guard; split <;> simp
+
+theorem guard_cases' (s : Rpc) (r : Rpc × List REv) :
+    (s.dead = false ∧ s.guard r = r) ∨ (s.dead = true ∧ s.guard r = (s, [.misuse])) := by
+  unfold Rpc.guard; cases h : s.dead <;> simp
 
 /-- the standard instance of `completeF_rel`: a relation implied by `CFrame`, kept by `request`
 and by erasing a pending entry, over acts satisfying `allowed` (which excludes `cleanup`) -/
 theorem frame_doAct (R : Rpc → Rpc → Prop) (hframe : ∀ s s', CFrame s s' → R s s')
-    (hreq : ∀ s c m, R s (s.request c m).1) (allowed : Act → Prop) (okId : Int → Prop)
-    (hnc : ∀ a, allowed a → a ≠ .cleanup ∧ injectOk okId a)
+    (hreq : ∀ s c m, s.dead = false → R s (s.request c m).1) (allowed : Act → Prop) (okId : Int → Prop)
+    (hnc : ∀ a, allowed a → injectOk okId a) (hclean : ∀ s, allowed .cleanup → s.dead = false → R s s.cleanup)
     (k : Rpc → Int → Int → Rpc × List REv)
     (hk : ∀ s, ProgAll allowed s.prog → ∀ id code, okId id → R s (k s id code).1)
     (cur : Int) (s : Rpc) (a : Act) (hp : ProgAll allowed s.prog) (ha : allowed a) : R s (doAct k cur s a).1 := by
   cases a with
-  | request cb m => exact hreq s cb m
-  | notify m => exact hframe _ _ (CFrame_refl s)
+  | request cb m =>
+    show R s (s.guard (s.request cb m)).1
+    rcases guard_cases' s (s.request cb m) with ⟨hd, h⟩ | ⟨_, h⟩ <;> rw [h]
+    · exact hreq s cb m hd
+    · exact hframe _ _ (CFrame_refl s)
+  | notify m =>
+    show R s (s.guard (s, [.sent 0 m])).1
+    rcases guard_cases s (s, [.sent 0 m]) with h | h <;> rw [h] <;> exact hframe _ _ (CFrame_refl s)
   | respond id code => exact hframe _ _ (apiRespond_frame s id code)
   | respondCur code => exact hframe _ _ (apiRespond_frame s cur code)
   | inject rid code =>
     simp only [doAct]
     cases hr : respIdG true rid with
     | none => exact hframe _ _ (CFrame_refl s)
-    | some y => exact hk s hp _ _ ((hnc _ ha).2 y hr)
+    | some y => exact hk s hp _ _ (hnc _ ha y hr)
   | setService m h => exact hframe _ _ (CFrame_refl s)
-  | cleanup => exact absurd rfl (hnc _ ha).1
+  | cleanup =>
+    show R s (s.guard (s.cleanup, [])).1
+    rcases guard_cases' s (s.cleanup, []) with ⟨hd, h⟩ | ⟨_, h⟩ <;> rw [h]
+    · exact hclean s ha hd
+    · exact hframe _ _ (CFrame_refl s)
 
 /-- a relation between the states before and after a library call that is kept by everything a
-cleanup-free callback script (satisfying `allowed`) can do -/
+callback script (whose acts satisfy `allowed`) can do -/
 structure Good (R : Rpc → Rpc → Prop) (allowed : Act → Prop) (okId : Int → Prop) : Prop where
   refl : ∀ s, R s s
   trans : ∀ a b c, R a b → R b c → R a c
   prog : ∀ a b, R a b → b.prog = a.prog
   frame : ∀ s s', CFrame s s' → R s s'
-  req : ∀ s c m, R s (s.request c m).1
+  req : ∀ s c m, s.dead = false → R s (s.request c m).1
   erase : ∀ s (k : Nat), okId (k : Int) → R s { s with pending := pendingErase s.pending k }
-  nc : ∀ a, allowed a → a ≠ .cleanup ∧ injectOk okId a
+  nc : ∀ a, allowed a → injectOk okId a
+  clean : ∀ s, allowed .cleanup → s.dead = false → R s s.cleanup
 
 theorem Good.completeF {R : Rpc → Rpc → Prop} {allowed : Act → Prop} {okId : Int → Prop} (g : Good R allowed okId)
     (fuel : Nat) (s : Rpc) (hp : ProgAll allowed s.prog) (id code : Int) (hid : okId id) :
     R s (Rpc.completeF fuel s id code).1 :=
   completeF_rel R g.refl g.trans g.prog allowed okId
-    (fun k hk cur s a hp ha => frame_doAct R g.frame g.req allowed okId g.nc k hk cur s a hp ha) g.erase fuel s hp id code hid
+    (fun k hk cur s a hp ha => frame_doAct R g.frame g.req allowed okId g.nc g.clean k hk cur s a hp ha) g.erase fuel s hp id code hid
 
 theorem Good.complete {R : Rpc → Rpc → Prop} {allowed : Act → Prop} {okId : Int → Prop} (g : Good R allowed okId)
     (s : Rpc) (hp : ProgAll allowed s.prog) (id code : Int) (hid : okId id) : R s (s.complete id code).1 :=
@@ -221,7 +241,23 @@ theorem Good.runActs {R : Rpc → Rpc → Prop} {allowed : Act → Prop} {okId :
     (cur : Int) (as : List Act) (hall : ∀ a ∈ as, allowed a) (s : Rpc) (hp : ProgAll allowed s.prog) :
     R s (s.runActs cur as).1 :=
   runActs_rel' R g.refl g.trans g.prog allowed okId
-    (fun k hk cur s a hp ha => frame_doAct R g.frame g.req allowed okId g.nc k hk cur s a hp ha) g.erase cur as hall s hp
+    (fun k hk cur s a hp ha => frame_doAct R g.frame g.req allowed okId g.nc g.clean k hk cur s a hp ha) g.erase cur as hall s hp
+
+theorem Good.runActsF {R : Rpc → Rpc → Prop} {allowed : Act → Prop} {okId : Int → Prop} (g : Good R allowed okId)
+    (fuel : Nat) (cur : Int) : ∀ (as : List Act), (∀ a ∈ as, allowed a) → ∀ s : Rpc, ProgAll allowed s.prog →
+      R s (runActsWith (Rpc.completeF fuel) cur s as).1 := by
+  intro as
+  induction as with
+  | nil => intro _ t _; exact g.refl t
+  | cons a as iha =>
+    intro hall t ht
+    simp only [runActsWith]
+    have h1 := frame_doAct R g.frame g.req allowed okId g.nc g.clean (Rpc.completeF fuel)
+      (fun s hp id code hid => g.completeF fuel s hp id code hid) cur t a ht (hall a (by simp))
+    have hp1 : ProgAll allowed (doAct (Rpc.completeF fuel) cur t a).1.prog := by rw [g.prog _ _ h1]; exact ht
+    exact g.trans _ _ _ h1 (iha (fun b hb => hall b (by simp [hb])) _ hp1)
+
+theorem progAll_true (p : Prog) : ProgAll (fun _ => True) p := ⟨fun _ _ _ _ => trivial, fun _ _ _ _ => trivial⟩
 
 theorem Good.completeAll {R : Rpc → Rpc → Prop} {allowed : Act → Prop} {okId : Int → Prop} (g : Good R allowed okId)
     (code : Int) (ids : List Nat) : ∀ s : Rpc, ProgAll allowed s.prog → (∀ i ∈ ids, okId (i : Int)) →
@@ -265,14 +301,14 @@ theorem Good.onRequest {R : Rpc → Rpc → Prop} {allowed : Act → Prop} {okId
     split
     · simp only
       have h0 : R s ({ s with srv := s.srv.insert id } : Rpc) :=
-        g.frame _ _ ⟨rfl, rfl, rfl, rfl, rfl, rfl, rfl, rfl, rfl, rfl⟩
+        g.frame _ _ ⟨rfl, rfl, rfl, rfl, rfl, rfl, rfl, rfl, rfl, rfl, rfl⟩
       have h1 := g.runActs id hd.acts hall ({ s with srv := s.srv.insert id } : Rpc) hp
       have h01 := g.trans _ _ _ h0 h1
       split
       · exact h01
       · split
         · exact g.trans _ _ _ h01 (g.frame _ _ (apiRespond_frame _ id _))
-        · exact g.trans _ _ _ h01 (g.frame _ _ ⟨rfl, rfl, rfl, rfl, rfl, rfl, rfl, rfl, rfl, rfl⟩)
+        · exact g.trans _ _ _ h01 (g.frame _ _ ⟨rfl, rfl, rfl, rfl, rfl, rfl, rfl, rfl, rfl, rfl, rfl⟩)
     · exact g.runActs 0 hd.acts hall s hp
 
 /-! ### the program never changes -/
@@ -283,13 +319,20 @@ theorem request_prog (s : Rpc) (c m : Nat) : (s.request c m).1.prog = s.prog := 
 theorem doAct_prog (k : Rpc → Int → Int → Rpc × List REv) (hk : ∀ s id code, (k s id code).1.prog = s.prog)
     (cur : Int) (s : Rpc) (a : Act) : (doAct k cur s a).1.prog = s.prog := by
   cases a with
-  | request cb m => exact request_prog s cb m
-  | notify m => rfl
-  | respond id code => simp only [doAct, Rpc.apiRespond]; split <;> rfl
-  | respondCur code => simp only [doAct, Rpc.apiRespond]; split <;> rfl
+  | request cb m =>
+    show (s.guard (s.request cb m)).1.prog = s.prog
+    rcases guard_cases s (s.request cb m) with h | h <;> rw [h]
+    · exact request_prog s cb m
+  | notify m =>
+    show (s.guard (s, [.sent 0 m])).1.prog = s.prog
+    rcases guard_cases s (s, [.sent 0 m]) with h | h <;> rw [h]
+  | respond id code => exact (apiRespond_frame s id code).2.2.2.2.2.2.2.2.2.1
+  | respondCur code => exact (apiRespond_frame s cur code).2.2.2.2.2.2.2.2.2.1
   | inject rid code => simp only [doAct]; split; rfl; exact hk _ _ _
   | setService m h => rfl
-  | cleanup => rfl
+  | cleanup =>
+    show (s.guard (s.cleanup, [])).1.prog = s.prog
+    rcases guard_cases s (s.cleanup, []) with h | h <;> rw [h] <;> rfl
 
 theorem completeF_prog (fuel : Nat) (s : Rpc) (id code : Int) : (Rpc.completeF fuel s id code).1.prog = s.prog :=
   completeF_rel (fun a b => b.prog = a.prog) (fun _ => rfl) (fun _ _ _ h1 h2 => h2.trans h1) (fun _ _ h => h)
@@ -326,21 +369,28 @@ theorem onRequest_prog (s : Rpc) (id : Int) (m : Nat) : (s.onRequest id m).1.pro
       split
       · rw [runActs_prog]
       · split
-        · simp only [Rpc.apiRespond]; split <;> simp [runActs_prog]
+        · simp only [(apiRespond_frame _ _ _).2.2.2.2.2.2.2.2.2.1, runActs_prog]
         · simp [runActs_prog]
     · simp [runActs_prog]
 
 theorem step_prog (s : Rpc) (op : Op) : (step s op).1.prog = s.prog := by
   cases op with
-  | request c m => exact request_prog s c m
-  | notify m => rfl
+  | request c m =>
+    show (s.guard (s.request c m)).1.prog = s.prog
+    rcases guard_cases s (s.request c m) with h | h <;> rw [h]
+    · exact request_prog s c m
+  | notify m =>
+    show (s.guard (s, [.sent 0 m])).1.prog = s.prog
+    rcases guard_cases s (s, [.sent 0 m]) with h | h <;> rw [h]
   | response id code => simp only [step, Rpc.respond, Rpc.respondG]; split; rfl; exact complete_prog _ _ _
   | tick => exact tick_prog s
-  | apiRespond id code => simp only [step, Rpc.apiRespond]; split <;> rfl
-  | inRequest id m => exact onRequest_prog s id m
+  | apiRespond id code => exact (apiRespond_frame s id code).2.2.2.2.2.2.2.2.2.1
+  | inRequest id m => simp only [step]; split; rfl; exact onRequest_prog s id m
   | stick => rfl
   | setService m h => rfl
-  | cleanup => rfl
+  | cleanup =>
+    show (s.guard (s.cleanup, [])).1.prog = s.prog
+    rcases guard_cases s (s.cleanup, []) with h | h <;> rw [h] <;> rfl
 
 theorem run_prog (ops : List Op) : ∀ s : Rpc, (run s ops).1.prog = s.prog := by
   induction ops with
@@ -389,29 +439,40 @@ theorem Delta_request (s : Rpc) (c m : Nat) : Delta s (s.request c m).1 (s.reque
   simp only [pendCount]
   split <;> split <;> omega
 
+theorem Delta_misuse (s : Rpc) : Delta s s [.misuse] :=
+  Delta_quiet _ _ _ (fun _ => Nat.le_refl _) rfl (fun t => by simp [firedCount])
+
+theorem Delta_guard (s : Rpc) (r : Rpc × List REv) (h : Delta s r.1 r.2) : Delta s (s.guard r).1 (s.guard r).2 := by
+  rcases guard_cases s r with e | e <;> rw [e]
+  · exact h
+  · exact Delta_misuse s
+
+theorem Delta_apiRespond (s : Rpc) (id code : Int) : Delta s (s.apiRespond id code).1 (s.apiRespond id code).2 := by
+  unfold Rpc.apiRespond
+  split
+  · exact Delta_refl s
+  · split
+    · exact Delta_misuse s
+    · exact Delta_quiet _ _ _ (fun _ => Nat.le_refl _) rfl (fun t => by simp [firedCount])
+
+theorem Delta_cleanup (s : Rpc) : Delta s s.cleanup [] :=
+  Delta_quiet _ _ _ (fun t => by simp [Rpc.cleanup, pendCount]) rfl (fun t => by simp [firedCount])
+
 theorem Delta_doAct (k : Rpc → Int → Int → Rpc × List REv)
     (hk : ∀ s id code, Delta s (k s id code).1 (k s id code).2) (cur : Int) (s : Rpc) (a : Act) :
     Delta s (doAct k cur s a).1 (doAct k cur s a).2 := by
   cases a with
-  | request cb m => exact Delta_request s cb m
-  | notify m => exact Delta_quiet _ _ _ (fun _ => Nat.le_refl _) rfl (fun t => by first | rfl | simp [firedCount])
-  | respond id code =>
-    simp only [doAct, Rpc.apiRespond]
-    split
-    · exact Delta_refl s
-    · exact Delta_quiet _ _ _ (fun _ => Nat.le_refl _) rfl (fun t => by first | rfl | simp [firedCount])
-  | respondCur code =>
-    simp only [doAct, Rpc.apiRespond]
-    split
-    · exact Delta_refl s
-    · exact Delta_quiet _ _ _ (fun _ => Nat.le_refl _) rfl (fun t => by first | rfl | simp [firedCount])
+  | request cb m => exact Delta_guard s _ (Delta_request s cb m)
+  | notify m => exact Delta_guard s (s, [.sent 0 m]) (Delta_quiet _ _ _ (fun _ => Nat.le_refl _) rfl (fun t => by simp [firedCount]))
+  | respond id code => exact Delta_apiRespond s id code
+  | respondCur code => exact Delta_apiRespond s cur code
   | inject rid code =>
     simp only [doAct]
     split
     · exact Delta_refl s
     · exact hk _ _ _
   | setService m h => exact Delta_quiet _ _ _ (fun _ => Nat.le_refl _) rfl (fun t => by first | rfl | simp [firedCount])
-  | cleanup => exact Delta_quiet _ _ _ (fun t => by first | exact Nat.zero_le _ | simp [Rpc.cleanup, pendCount]) rfl (fun t => by first | rfl | simp [firedCount])
+  | cleanup => exact Delta_guard s (s.cleanup, []) (Delta_cleanup s)
 
 theorem Delta_runActsWith (k : Rpc → Int → Int → Rpc × List REv)
     (hk : ∀ s id code, Delta s (k s id code).1 (k s id code).2) (cur : Int) (as : List Act) :
@@ -499,13 +560,8 @@ theorem Delta_onRequest (s : Rpc) (id : Int) (m : Nat) : Delta s (s.onRequest id
       split
       · exact Delta_cons_quiet _ _ _ _ (fun t => by first | rfl | simp [firedCount]) hbase
       · split
-        · simp only [Rpc.apiRespond]
-          split
-          · simp only [List.append_nil]
-            exact Delta_cons_quiet _ _ _ _ (fun t => by first | rfl | simp [firedCount]) hbase
-          · refine Delta_cons_quiet _ _ _ _ (fun t => by first | rfl | simp [firedCount]) ?_
-            exact Delta_trans _ _ _ _ _ hbase
-              (Delta_quiet _ _ _ (fun _ => Nat.le_refl _) rfl (fun t => by first | rfl | simp [firedCount]))
+        · refine Delta_cons_quiet _ _ _ _ (fun t => by first | rfl | simp [firedCount]) ?_
+          exact Delta_trans _ _ _ _ _ hbase (Delta_apiRespond _ _ _)
         · refine Delta_cons_quiet _ _ _ _ (fun t => by first | rfl | simp [firedCount]) ?_
           have := Delta_trans _ _ _ _ [] hbase
             (Delta_quiet _ ({ (({ s with srv := s.srv.insert id } : Rpc).runActs id hd.acts).1 with
@@ -516,23 +572,23 @@ theorem Delta_onRequest (s : Rpc) (id : Int) (m : Nat) : Delta s (s.onRequest id
 
 theorem Delta_step (s : Rpc) (op : Op) : Delta s (step s op).1 (step s op).2 := by
   cases op with
-  | request c m => exact Delta_request s c m
-  | notify m => exact Delta_quiet _ _ _ (fun _ => Nat.le_refl _) rfl (fun t => by first | rfl | simp [firedCount])
+  | request c m => exact Delta_guard s _ (Delta_request s c m)
+  | notify m => exact Delta_guard s (s, [.sent 0 m]) (Delta_quiet _ _ _ (fun _ => Nat.le_refl _) rfl (fun t => by simp [firedCount]))
   | response id code =>
     simp only [step, Rpc.respond, Rpc.respondG]
     split
     · exact Delta_refl s
     · exact Delta_complete s _ code
   | tick => exact Delta_tick s
-  | apiRespond id code =>
-    simp only [step, Rpc.apiRespond]
+  | apiRespond id code => exact Delta_apiRespond s id code
+  | inRequest id m =>
+    simp only [step]
     split
     · exact Delta_refl s
-    · exact Delta_quiet _ _ _ (fun _ => Nat.le_refl _) rfl (fun t => by first | rfl | simp [firedCount])
-  | inRequest id m => exact Delta_onRequest s id m
+    · exact Delta_onRequest s id m
   | stick => exact Delta_quiet _ _ _ (fun _ => Nat.le_refl _) rfl (fun t => by first | rfl | simp [firedCount])
   | setService m h => exact Delta_quiet _ _ _ (fun _ => Nat.le_refl _) rfl (fun t => by first | rfl | simp [firedCount])
-  | cleanup => exact Delta_quiet _ _ _ (fun t => by first | exact Nat.zero_le _ | simp [Rpc.cleanup, pendCount]) rfl (fun t => by first | rfl | simp [firedCount])
+  | cleanup => exact Delta_guard s (s.cleanup, []) (Delta_cleanup s)
 
 theorem Delta_run (ops : List Op) : ∀ s : Rpc, Delta s (run s ops).1 (run s ops).2 := by
   induction ops with
